@@ -79,6 +79,11 @@ pub(crate) fn mask_sigttou() -> Result<(), error::Error> {
     Ok(())
 }
 
+/// Makes the process ignore `SIGPIPE`; nothing to do on this platform.
+pub fn ignore_sigpipe() -> Result<(), error::Error> {
+    Ok(())
+}
+
 pub(crate) fn poll_for_stopped_children() -> Result<bool, error::Error> {
     Ok(false)
 }
